@@ -20,6 +20,12 @@ fn scalars<F: Field>(cx: &Ctx, tag: &str) -> Vec<(String, F)> {
         ("r-1".into(), -F::ONE),
         ("s0".into(), F::random(&mut rng)),
         ("s1".into(), F::random(&mut rng)),
+        // thorough only (the quick tier takes the first five)
+        ("r-2".into(), -F::ONE.double()),
+        ("(r-1)/2".into(), (-F::ONE) * F::ONE.double().invert().unwrap()),
+        ("2^64".into(), F::ONE.double().pow_vartime([64u64])),
+        ("2^128".into(), F::ONE.double().pow_vartime([128u64])),
+        ("2^254".into(), F::ONE.double().pow_vartime([254u64])),
     ]
 }
 
@@ -35,16 +41,29 @@ where
     E::G2Prepared: From<E::G2Affine>,
 {
     let mut rng = cx.rng(&format!("c13-points-{name}"));
-    let g1s: Vec<(String, E::G1Affine)> = vec![
+    let mut g1s: Vec<(String, E::G1Affine)> = vec![
         ("O".into(), E::G1Affine::identity()),
         ("G".into(), E::G1Affine::generator()),
         ("P".into(), E::G1::random(&mut rng).to_affine()),
     ];
-    let g2s: Vec<(String, E::G2Affine)> = vec![
+    let mut g2s: Vec<(String, E::G2Affine)> = vec![
         ("O".into(), E::G2Affine::identity()),
         ("G".into(), E::G2Affine::generator()),
         ("Q".into(), E::G2::random(&mut rng).to_affine()),
     ];
+    // opposite points (both tiers: additivity and cancelling lists need them)
+    let (neg_p, neg_q) = ((-g1s[2].1.to_curve()).to_affine(), (-g2s[2].1.to_curve()).to_affine());
+    g1s.push(("-P".into(), neg_p));
+    g2s.push(("-Q".into(), neg_q));
+    if cx.tier.is_thorough() {
+        let (g1, g2) = (E::G1Affine::generator().to_curve(), E::G2Affine::generator().to_curve());
+        g1s.push(("-G".into(), (-g1).to_affine()));
+        g1s.push(("2G".into(), g1.double().to_affine()));
+        g1s.push(("P'".into(), E::G1::random(&mut rng).to_affine()));
+        g2s.push(("-G".into(), (-g2).to_affine()));
+        g2s.push(("2G".into(), g2.double().to_affine()));
+        g2s.push(("Q'".into(), E::G2::random(&mut rng).to_affine()));
+    }
     let sc = scalars::<E::Fr>(cx, name);
     let sc = if cx.tier.is_thorough() { sc } else { sc[..5].to_vec() };
 
@@ -98,16 +117,58 @@ where
         out
     });
 
+    // ---- (1b) additivity in each slot over the whole point alphabets (equal and opposite
+    // operands included): e(P1 + P2, Q) = e(P1, Q) e(P2, Q), e(P, Q1 + Q2) = e(P, Q1) e(P, Q2)
+    let mut cases = vec![];
+    for (an, a) in &g1s {
+        for (bn, b) in &g1s {
+            for (qn, q) in &g2s {
+                cases.push((format!("{name}:add1({an}+{bn},{qn})"), (Some((*a, *b, *q)), None, an != "O" && bn != "O" && qn != "O")));
+            }
+        }
+    }
+    for (pn, p) in &g1s {
+        for (an, a) in &g2s {
+            for (bn, b) in &g2s {
+                cases.push((format!("{name}:add2({pn},{an}+{bn})"), (None, Some((*p, *a, *b)), pn != "O" && an != "O" && bn != "O")));
+            }
+        }
+    }
+    cx.run_cases(&format!("{name}-additive"), &cases, |(first, second, proper)| {
+        let mut out = CaseOut::batch();
+        let r = catch(|| match (first, second) {
+            (Some((a, b, q)), _) => E::pairing(&(a.to_curve() + b.to_curve()).to_affine(), q) == E::pairing(a, q) + E::pairing(b, q),
+            (_, Some((p, a, b))) => E::pairing(p, &(a.to_curve() + b.to_curve()).to_affine()) == E::pairing(p, a) + E::pairing(p, b),
+            _ => true,
+        });
+        match r {
+            Err(p) => out.viol(Viol::new(format!("{name}:pairing:panic:{}", panic_site(&p)), format!("pairing panicked: {p}"), json!({}))),
+            Ok(ok) => {
+                out.eval("additive", *proper);
+                if !ok {
+                    out.viol(Viol::new(format!("{name}:additivity"), "e is not additive in one of its arguments", json!({})));
+                }
+            }
+        }
+        out
+    });
+
     // ---- (2) product rule on lists
-    let pair_alpha: Vec<(String, E::G1Affine, E::G2Affine)> = vec![
+    let mut pair_alpha: Vec<(String, E::G1Affine, E::G2Affine)> = vec![
         ("GG".into(), g1s[1].1, g2s[1].1),
         ("PQ".into(), g1s[2].1, g2s[2].1),
         ("OQ".into(), g1s[0].1, g2s[2].1),
         ("PO".into(), g1s[2].1, g2s[0].1),
     ];
+    if cx.tier.is_thorough() {
+        // members that cancel against PQ (the shape of a KZG check) and the doubly degenerate pair
+        pair_alpha.push(("-PQ".into(), g1s[3].1, g2s[2].1));
+        pair_alpha.push(("P-Q".into(), g1s[2].1, g2s[3].1));
+        pair_alpha.push(("OO".into(), g1s[0].1, g2s[0].1));
+    }
     let mut lists: Vec<Vec<usize>> = vec![vec![]];
     let mut frontier: Vec<Vec<usize>> = vec![vec![]];
-    for _ in 0..3 {
+    for _ in 0..cx.tier.pick(3, 4) {
         let mut next = vec![];
         for l in &frontier {
             for i in 0..pair_alpha.len() {
@@ -119,7 +180,7 @@ where
         lists.extend(next.iter().cloned());
         frontier = next;
     }
-    for len in 4..=8usize {
+    for len in (cx.tier.pick(3usize, 4usize) + 1)..=8usize {
         for start in 0..pair_alpha.len() {
             lists.push((0..len).map(|j| (start + j) % pair_alpha.len()).collect());
         }
@@ -141,7 +202,7 @@ where
             let expect: E::Gt = l.iter().fold(E::Gt::identity(), |acc, i| acc + E::pairing(&pair_alpha[*i].1, &pair_alpha[*i].2));
             got == expect
         });
-        let degenerate_members = l.iter().filter(|i| **i >= 2).count();
+        let degenerate_members = l.iter().filter(|i| [2usize, 3, 6].contains(*i)).count();
         match r {
             Err(p) => out.viol(Viol::new(format!("{name}:mml:panic:len={}", if l.is_empty() { "0".into() } else { ">0".to_string() }), format!("multi_miller_loop panicked: {p}"), json!({"list": l}))),
             Ok(ok) => {
@@ -293,8 +354,10 @@ fn main() {
     let mut cx = Ctx::from_args("C13", Level::Exploration);
     cx.set_rule(
         "complete enumeration of: scalar alphabet^2 x G1 alphabet x G2 alphabet (bilinearity, linearity \
-         in each slot, non-degeneracy, entry-point agreement); all pair lists of length 0..=3 over a \
-         4-pair alphabet with identity members + lengths 4..=8 on a diagonal (product rule); Gt \
+         in each slot, non-degeneracy, entry-point agreement); G1 alphabet^2 x G2 alphabet and G1 alphabet x G2 alphabet^2 \
+         (additivity, equal and opposite operands included); all pair lists of length 0..=3 over a \
+         4-pair alphabet with identity members (thorough: 0..=4 over 7 pairs incl. pairs that cancel and (O,O); point alphabets \
+         of 7, scalar alphabet of 11) + lengths 4..=8 on a diagonal (product rule); Gt \
          alphabet^3 (group axioms, order r, scalar action). A case is non-trivial when no operand \
          is an identity / zero (bilinear), the list has >= 2 members (lists); keys are unique.",
     );
